@@ -1,4 +1,128 @@
-From Coq Require Import ZArith List.
-From OMV Require Import Base.Val C03.Model.
-Theorem C03_placeholder : True. Proof. exact I. Qed.
-Print Assumptions C03_placeholder.
+(* C03 -- property theorems (statements only; proofs by [exact] of lemmas in Proofs*.v). *)
+From Coq Require Import ZArith List Permutation Ring_theory.
+From OMV Require Import Base.Val C03.Model C03.ProofsGreedy C03.ProofsExpand C03.ProofsBidir C03.ProofsTotals.
+Import ListNotations.
+Open Scope nat_scope.
+
+(* (a) The greedy colouring of _get_full_disjoint_col_matrix_cols is proper for EVERY boolean
+   pattern and EVERY visiting order: each visited column gets exactly one colour (once), no colour
+   is empty, there are never more colours than columns, and two columns that have a nonzero in a
+   common row never share a colour. *)
+Theorem C03_greedy_proper : forall (P : pattern) (ncols : nat) (ord : list nat),
+  NoDup ord -> (forall c, In c ord -> c < ncols) ->
+  let groups := greedy ncols (nbrs P ncols) ord in
+  Permutation (concat groups) ord /\ NoDup (concat groups) /\
+  (forall c k1 k2, In c (nth k1 groups []) -> In c (nth k2 groups []) -> k1 = k2) /\
+  Forall (fun g => g <> []) groups /\ length groups <= length ord /\
+  proper_groups P groups.
+Proof. exact greedy_proper. Qed.
+Print Assumptions C03_greedy_proper.
+
+(* (b) For every pattern, every proper colouring and EVERY matrix with that pattern over any value
+   type with a neutral addition (Z, Q, R, any ring), _expand_jac of the compressed products is the
+   matrix itself. *)
+Theorem C03_expand_compress_fwd : forall (V : Type) (vzero : V) (vadd : V -> V -> V),
+  (forall x, vadd vzero x = x) -> (forall x, vadd x vzero = x) ->
+  forall (P : pattern) (ncols : nat) (groups : list (list nat)) (M : nat -> nat -> V),
+    (forall r c, pat P r c = false -> M r c = vzero) ->
+    NoDup (concat groups) ->
+    proper_groups P groups ->
+    (forall r c, c < ncols -> pat P r c = true -> exists k, In c (nth k groups [])) ->
+    forall r c, c < ncols ->
+      expand_fwd V vzero P groups (compress_fwd V vzero vadd M ncols groups) r c = M r c.
+Proof. exact expand_compress_fwd. Qed.
+Print Assumptions C03_expand_compress_fwd.
+
+Theorem C03_expand_compress_rev : forall (V : Type) (vzero : V) (vadd : V -> V -> V),
+  (forall x, vadd vzero x = x) -> (forall x, vadd x vzero = x) ->
+  forall (P : pattern) (nrows ncols : nat) (groups : list (list nat)) (M : nat -> nat -> V),
+    (forall r c, pat P r c = false -> M r c = vzero) ->
+    NoDup (concat groups) ->
+    proper_groups (transpose ncols P) groups ->
+    (forall r c, r < nrows -> c < ncols -> pat P r c = true -> exists k, In r (nth k groups [])) ->
+    forall r c, r < nrows -> c < ncols ->
+      expand_rev V vzero P groups (compress_rev V vzero vadd M nrows groups) r c = M r c.
+Proof. exact expand_compress_rev. Qed.
+Print Assumptions C03_expand_compress_rev.
+
+(* (a)+(b): the fwd / rev colouring computed by the greedy algorithm with any visiting order that
+   enumerates the non-empty columns (rows) once reconstructs every entry of every matrix. *)
+Theorem C03_fwd_coloring_reconstructs : forall (V : Type) (vzero : V) (vadd : V -> V -> V),
+  (forall x, vadd vzero x = x) -> (forall x, vadd x vzero = x) ->
+  forall (P : pattern) (ncols : nat) (ord : list nat) (M : nat -> nat -> V),
+    (forall r c, pat P r c = false -> M r c = vzero) ->
+    order_ok P ncols ord = true ->
+    let groups := greedy ncols (nbrs P ncols) ord in
+    forall r c, c < ncols ->
+      expand_fwd V vzero P groups (compress_fwd V vzero vadd M ncols groups) r c = M r c.
+Proof. exact fwd_coloring_reconstructs. Qed.
+Print Assumptions C03_fwd_coloring_reconstructs.
+
+Theorem C03_rev_coloring_reconstructs : forall (V : Type) (vzero : V) (vadd : V -> V -> V),
+  (forall x, vadd vzero x = x) -> (forall x, vadd x vzero = x) ->
+  forall (P : pattern) (ncols : nat) (ord : list nat) (M : nat -> nat -> V),
+    (forall r c, pat P r c = false -> M r c = vzero) ->
+    order_ok (transpose ncols P) (length P) ord = true ->
+    let groups := greedy (length P) (nbrs (transpose ncols P) (length P)) ord in
+    forall r c, r < length P -> c < ncols ->
+      expand_rev V vzero P groups (compress_rev V vzero vadd M (length P) groups) r c = M r c.
+Proof. exact rev_coloring_reconstructs. Qed.
+Print Assumptions C03_rev_coloring_reconstructs.
+
+(* (c) The validator for bidirectional colourings is sound: whatever produced the colour groups,
+   nonzero maps and subtraction list, if [valid_bidir] accepts them then the jac setter followed by
+   the ordered subtractions returns every entry of EVERY matrix with the pattern, over any
+   commutative ring. *)
+Theorem C03_bidir_validator_sound :
+  forall (R : Type) (rO rI : R) (radd rmul rsub : R -> R -> R) (ropp : R -> R),
+  ring_theory rO rI radd rmul rsub ropp eq ->
+  forall P nrows ncols fg fnz rg rnz subs,
+  valid_bidir P nrows ncols fg fnz rg rnz subs = true ->
+  forall M : nat -> nat -> R, (forall r c, pat P r c = false -> M r c = rO) ->
+  forall r c, r < nrows -> c < ncols ->
+    jget rO (reconstruct R rO radd rsub M nrows ncols fg fnz rg rnz subs) r c = M r c.
+Proof. exact valid_bidir_sound. Qed.
+Print Assumptions C03_bidir_validator_sound.
+
+(* ... and every column (row) is in at most one fwd (rev) colour. *)
+Theorem C03_bidir_validator_groups : forall nrows ncols fg rg,
+  valid_groups nrows ncols fg rg = true ->
+  NoDup (concat fg) /\ NoDup (concat rg) /\
+  (forall c k1 k2, In c (nth k1 fg []) -> In c (nth k2 fg []) -> k1 = k2) /\
+  (forall r k1 k2, In r (nth k1 rg []) -> In r (nth k2 rg []) -> k1 = k2) /\
+  (forall c, In c (concat fg) -> c < ncols) /\ (forall r, In r (concat rg) -> r < nrows).
+Proof. exact valid_groups_sound. Qed.
+Print Assumptions C03_bidir_validator_groups.
+
+(* Never more solves than the uncoloured computation. *)
+Theorem C03_solves_le_uncolored :
+  forall (P : pattern) (ncols : nat) (ordf ordr : list nat) (bidir : nat),
+  order_ok P ncols ordf = true ->
+  order_ok (transpose ncols P) (length P) ordr = true ->
+  let nf := length (greedy ncols (nbrs P ncols) ordf) in
+  let nr := length (greedy (length P) (nbrs (transpose ncols P) (length P)) ordr) in
+  nf <= ncols /\ nr <= length P /\
+  snd (auto_select bidir nf nr) <= Nat.min (length P) ncols /\
+  snd (auto_select bidir nf nr) <= bidir.
+Proof. exact solves_le_uncolored. Qed.
+Print Assumptions C03_solves_le_uncolored.
+
+(* (d) compute_totals with the subtractions applied BEFORE unit/driver scaling (repaired order) is
+   exact for every accepted colouring, matrix and scaling ... *)
+Theorem C03_totals_repaired_correct : forall P nrows ncols fg fnz rg rnz subs,
+  valid_bidir P nrows ncols fg fnz rg rnz subs = true ->
+  forall (M sc : nat -> nat -> Z), (forall r c, pat P r c = false -> M r c = 0%Z) ->
+  forall r c, r < nrows -> c < ncols ->
+    jget 0%Z (totals_repaired M sc nrows ncols fg fnz rg rnz subs) r c = (sc r c * M r c)%Z.
+Proof. exact totals_repaired_correct. Qed.
+Print Assumptions C03_totals_repaired_correct.
+
+(* ... whereas the order of the pinned source (scaling first, subtractions last) is refuted. *)
+Theorem C03_totals_present_refuted :
+  exists P nrows ncols fg fnz rg rnz subs (M sc : nat -> nat -> Z) r c,
+    valid_bidir P nrows ncols fg fnz rg rnz subs = true /\
+    (forall r c, pat P r c = false -> M r c = 0%Z) /\
+    r < nrows /\ c < ncols /\
+    jget 0%Z (totals_present M sc nrows ncols fg fnz rg rnz subs) r c <> (sc r c * M r c)%Z.
+Proof. exact totals_present_refuted. Qed.
+Print Assumptions C03_totals_present_refuted.
